@@ -1958,7 +1958,7 @@ class Exec:
                     st.pc = s.pc
             return out
         if g.ifs:
-            return self.filter_comprehension(node, g, ln, item, st)
+            return self.filter_comprehension(node, g, ln, item, st, getattr(itv, 'src', None))
 
         if not self.spec_mode:
             # obligations of the element expression, once, for an arbitrary index of the sequence
@@ -1979,7 +1979,10 @@ class Exec:
             finally:
                 self.spec_mode -= 1
         probe = get(z3.Int(fresh_name('probe')))
-        return ArrayVal((ln,), get, dtype_of_value(probe))
+        res = ArrayVal((ln,), get, dtype_of_value(probe))
+        if getattr(itv, 'src', None) is not None:
+            res.src = itv.src            # element j still stems from source position src(j) of the original sequence
+        return res
 
     expr_GeneratorExp = expr_ListComp
 
@@ -2018,7 +2021,7 @@ class Exec:
         self.assumed.append('model: a dict comprehension holds exactly the produced keys, each with the value produced last')
         return lib.DictVal(lambda x: HAS(to_real(x)), lambda x: at(IDX(to_real(x)), 'value'))
 
-    def filter_comprehension(self, node, g, ln, item, st):
+    def filter_comprehension(self, node, g, ln, item, st, outer_src=None):
         """[elt for x in seq if cond] over a sequence of symbolic length: the result has a symbolic length K; the j-th
         result element is elt at source index SRC(j); SRC is strictly increasing and enumerates exactly the source
         indices at which cond holds (POS(i) is the result position of source index i)."""
@@ -2063,7 +2066,10 @@ class Exec:
                                 patterns=[POS(i)]))
         self.assumed.append('model: a filtered comprehension keeps exactly the elements satisfying the filter, in source order')
         probe = at(SRC(z3.Int(fresh_name('probe'))), 'elt')
-        return ArrayVal((K,), lambda q: at(SRC(to_int(q)), 'elt'), dtype_of_value(probe))
+        res = ArrayVal((K,), lambda q: at(SRC(to_int(q)), 'elt'), dtype_of_value(probe))
+        # source position of the j-th kept element (composed with the source map of the sequence that was filtered)
+        res.src = (lambda q: outer_src(SRC(to_int(q)))) if outer_src is not None else (lambda q: SRC(to_int(q)))
+        return res
 
     # ---- calls --------------------------------------------------------------------------------
 
